@@ -196,8 +196,14 @@ func coqSeg(c *Case, s *SegObs) string {
 	for i, e := range s.Execs {
 		execs[i] = lib.CoqTuple(lib.CoqN(uint64(e.ID)), coqVal(e.In), lib.CoqBool(e.Abort))
 	}
+	var pres []int
+	for _, ev := range s.Events {
+		if ev.Kind == "pre" {
+			pres = append(pres, ev.ID)
+		}
+	}
 	cmp := !(hasEager(c) && s.Class != "done" && s.Class != "interrupt")
-	return lib.CoqApp("Build_oseg", lib.CoqN(classCode(s.Class)), out, info, lib.CoqList(execs),
+	return lib.CoqApp("Build_oseg", lib.CoqN(classCode(s.Class)), out, info, lib.CoqList(execs), coqIDs(pres),
 		lib.CoqBool(cmp), lib.CoqBool(s.Sets == 1), lib.CoqBool(s.Sets <= 1))
 }
 
